@@ -134,6 +134,13 @@ def evaluate(sub, spec, known, stats):
         raise HarnessError("exception in harness code: %r\n%s" % (exc, short_tb(exc, 12)))
     if out is None:
         out = Out(ok=True, nontrivial=False, classes=["skipped"])
+    for c in out["classes"]:
+        # a run function may recognise the narrow signature of a recorded known finding after the fact
+        if isinstance(c, str) and c.startswith("excluded_known:"):
+            if any(e["id"] == c.split(":", 1)[1] for e in known):
+                stats.excluded_known[c.split(":", 1)[1]] += 1
+            else:
+                return Out(ok=False, msg="case matches the signature of %s, which is not listed as a known finding" % c)
     return out
 
 
